@@ -28,5 +28,19 @@ def main():
     return driver.run_check(prop, a.tier, seed, a.runs, a.workers, write_evidence=not a.no_evidence)
 
 
+def _main():
+    # one scratch directory per invocation (the trace export writes below $HOME); removed whatever happens
+    import shutil
+    import tempfile
+    top = os.getpid()
+    base = tempfile.mkdtemp(prefix='simv_scratch_')
+    os.environ['SIMV_SCRATCH'] = base
+    try:
+        return main()
+    finally:
+        if os.getpid() == top:
+            shutil.rmtree(base, ignore_errors=True)
+
+
 if __name__ == '__main__':
-    sys.exit(main())
+    sys.exit(_main())
